@@ -330,23 +330,32 @@ Obligation(sys, p) ==
     THEN <<sys.conts[CbKey(p)], p.o>>             \* a SET of admissible keys (indirect jumps: one per hint)
   ELSE <<>>
 
-\* "" if the invocation e after p is prescribed by the equations, else the reason
+\* "" if the invocation e after p is prescribed by the equations, else a SHORT reason code (TLC wraps long
+\* tuples when printing):
+\*   args              no equation has a call-back with these arguments
+\*   chain-merge       merge inside a chain
+\*   chain-def-next    the fold over the defs must continue with the next def, fed with the previous answer
+\*   chain-spec-jump   after a specialisation the jump must be updated with the specialised value
+\*   chain-def-head    a def in the middle of a block without its predecessor (wrong order / no short-circuit)
+\*   chain-jump-nospec a conditional's jump updated without the specialisation of the conditional
+\*   input-above / input-comb / input-range   the value handed to a chain head is not below the least solution
+\*                     at the source node / at the combinator node / is no lattice element
 CbVerdict(A, sys, lfp, p, e) ==
   LET k == CbKey(e)
       ob == Obligation(sys, p)
   IN
-  IF e.f = "merge" THEN (IF ob # <<>> THEN "chain: merge inside a chain" ELSE "")
-  ELSE IF k \notin sys.keys THEN "args: no equation has a call-back with these arguments"
+  IF e.f = "merge" THEN (IF ob # <<>> THEN "chain-merge" ELSE "")
+  ELSE IF k \notin sys.keys THEN "args"
   ELSE IF ob # <<>> THEN
          (IF p.f = "def"
-            THEN (IF k = ob[1] /\ e.x = ob[2] THEN "" ELSE "chain: the fold over the defs must continue with the next def")
-            ELSE (IF k \in ob[1] /\ e.x = ob[2] THEN "" ELSE "chain: the jump must be updated with the specialised value"))
-  ELSE IF e.f = "def" /\ sys.defs[e.a].i # 1 THEN "chain: def in the middle of a block without its predecessor"
-  ELSE IF k \notin DOMAIN sys.heads THEN "chain: jump update without the specialisation of its conditional"
+            THEN (IF k = ob[1] /\ e.x = ob[2] THEN "" ELSE "chain-def-next")
+            ELSE (IF k \in ob[1] /\ e.x = ob[2] THEN "" ELSE "chain-spec-jump"))
+  ELSE IF e.f = "def" /\ sys.defs[e.a].i # 1 THEN "chain-def-head"
+  ELSE IF k \notin DOMAIN sys.heads THEN "chain-jump-nospec"
   ELSE IF IsTwo(e)
          THEN (IF \E n \in sys.heads[k] : XLeqT(A, CombT(e.y, e.x), lfp[n]) THEN ""
-               ELSE "input: above the least solution at the combinator node")
-  ELSE IF e.x \notin XLat(A) THEN "input: not a lattice element"
+               ELSE "input-comb")
+  ELSE IF e.x \notin XLat(A) THEN "input-range"
   ELSE IF \E n \in sys.heads[k] : XLeqT(A, ValT(e.x), lfp[n]) THEN ""
-  ELSE "input: above the least solution at the source node"
+  ELSE "input-above"
 =============================================================================
